@@ -51,7 +51,10 @@ func runC17(t *testing.T, e *worlds.Env, tier string) (bool, any) {
 		tp := e.T
 		rate = float64(tp.Pick("rate", 0, 1, 10, 1000, 100000, 10000000))
 		trate = float64(tp.Pick("trate", 0, 0, 5, 1000, 100000, 10000000))
-		if rate == 0 && trate == 0 {
+		latencyOnly := tp.Prob(1, 8, "latency-only")
+		if latencyOnly {
+			rate, trate = 0, 0 // no limit configured at all: only the initial latency applies
+		} else if rate == 0 && trate == 0 {
 			rate = 1000 // (an exhausted tape yields zeros: never loop on tape values)
 		}
 		if rate > 0 {
@@ -61,6 +64,9 @@ func runC17(t *testing.T, e *worlds.Env, tier string) (bool, any) {
 			tburst = tp.Pick("tburst", 0, 1, 7, 512, 4096, 65536)
 		}
 		latency = time.Duration(tp.Pick("latency-ms", 0, 0, 1, 300, 2000)) * time.Millisecond
+		if latencyOnly && latency == 0 {
+			latency = time.Duration(tp.Pick("latency-only-ms", 300, 1, 2000)) * time.Millisecond
+		}
 		h := &l4throttle.Handler{ReadBytesPerSecond: rate, ReadBurstSize: burst, TotalReadBytesPerSecond: trate, TotalReadBurstSize: tburst, Latency: caddy.Duration(latency)}
 		if err := h.Provision(e.Ctx); err != nil {
 			panic(err)
